@@ -33,7 +33,8 @@ META = {
         "warning) and its ordering before tracts are constructed."
         ' Also: lock-down of the colon / segment / sec_within settings, require_colon is computed from the locked-down arguments (provenance), the fallback takes over every list parse_safe hands off, side tags of unused text are constants, exhaustive layout dispatch, the settings are known to Config.'
         ' Round 7: cleanup_desc removes words from the end of a block only; a local name bound to a list the object keeps is not grown in place (`pulled = self.matches[0][1]; pulled += ...`).'
-        ' Round 8: the colon-required fallback stages a single section (shared with C11).'),
+        ' Round 8: the colon-required fallback stages a single section (shared with C11).'
+        " Round 9: segment cuts at TwpRgeFinder's matches, not at every raw pattern match; the sec_within length gate is >=."),
     'families': ['TBL', 'LOCK', 'ORDER', 'PAIR', 'FORWARD', 'DEADPARAM', 'SIB-DEFAULTS'],
 }
 
